@@ -125,6 +125,13 @@ TEMPLATES = {
     "arrSX": ('<array name="f{i}" type="SX"/>', False),
     # read-to-end arrays of bounded elements that are not fixed-size (while loops whose termination rests
     # on the element's progress): plain, with an own <break>, with an own chunked section
+    # zero-size structs as required fields (nothing is written, but None / a bad nested value must still be refused),
+    # a zero-length array inside a fixed-size element, element widths that come from an override
+    "structZ0": ('<field name="f{i}" type="Z0"/>', False),
+    "structZ1": ('<field name="f{i}" type="Z1"/>', False),
+    "arrZA": ('<array name="f{i}" type="ZA"/>', False),
+    "arrboolshort": ('<array name="f{i}" type="bool:short"/>', False),
+    "arrBS": ('<array name="f{i}" type="BS"/>', False),
     "arrO": ('<array name="f{i}" type="O"/>', False),
     "arrC": ('<array name="f{i}" type="C"/>', False),
     "arrCO": ('<array name="f{i}" type="CO"/>', False),
@@ -135,6 +142,10 @@ SUPPORT += """
   <struct name="CB"><chunked><field name="p" type="char"/><break/><field name="q" type="short"/></chunked></struct>
   <struct name="SF"><field name="p" type="char"/><field name="s" type="string" length="3" padded="true"/></struct>
   <struct name="SX"><field name="p" type="char" optional="false"/><array name="q" type="char" length="2" optional="false" delimited="false"/></struct>
+  <struct name="Z0"></struct>
+  <struct name="Z1"><field name="t" type="string" length="0"/></struct>
+  <struct name="ZA"><field name="p" type="char"/><array name="z" type="short" length="0"/><field name="q" type="short"/></struct>
+  <struct name="BS"><field name="p" type="char"/><field name="on" type="bool:short"/></struct>
 """
 
 # the first-generation templates: enumerated exhaustively in pairs by the thorough tier (the later ones, added for specific
